@@ -631,7 +631,10 @@ impl<'tcx> Dumper<'tcx> {
         for ldid in keys {
             let did = ldid.to_def_id();
             let kind = tcx.def_kind(did);
-            if !matches!(kind, DefKind::Fn | DefKind::AssocFn | DefKind::Closure) {
+            if !matches!(
+                kind,
+                DefKind::Fn | DefKind::AssocFn | DefKind::Closure | DefKind::Const { .. } | DefKind::AssocConst { .. } | DefKind::Static { .. }
+            ) {
                 continue;
             }
             let path = self.path(did);
@@ -679,7 +682,14 @@ impl<'tcx> Dumper<'tcx> {
             }
             let mut o = vec![
                 ("name".to_string(), s(name)),
-                ("kind".to_string(), s(format!("{:?}", kind))),
+                (
+                    "kind".to_string(),
+                    s(match kind {
+                        DefKind::Const { .. } | DefKind::AssocConst { .. } => "Const".to_string(),
+                        DefKind::Static { .. } => "Static".to_string(),
+                        k => format!("{:?}", k),
+                    }),
+                ),
                 ("vis".to_string(), s(vis)),
                 ("glue".to_string(), J::Bool(glue)),
                 (
